@@ -39,8 +39,8 @@ Example C11_stem_collision_check_live : pin_c11tree_stem_check = true.
 Proof. reflexivity. Qed.
 Example C11_stem_validated_live : pin_c11path_stem_validated = true.
 Proof. reflexivity. Qed.
-(* not landed yet (design_notes/C11_support_namespace_fix.patch): once tools/translators/gen_c11.py records it as landed, the
-   validation must be in the code *)
+(* landed in 5a15038 and recorded in tools/translators/gen_c11.py (SUPPORT_FIX_LANDED): pin_c11support_fix_landed = true, so this
+   says pin_c11support_ns_validated = true -- reverting the fix breaks it (the pre-fix shape is no longer pinned) *)
 Example C11_support_ns_validated_live : implb pin_c11support_fix_landed pin_c11support_ns_validated = true.
 Proof. reflexivity. Qed.
 
@@ -412,8 +412,8 @@ Print Assumptions C11_real_written_paths_inside_outdir.
 (* (14'') SUPPORT FILES join the claim: SupportGenerator writes <outdir joined with every '.'-component of support_namespace>/<resource>;
    support_targets flag outdir sn names = None iff Language.support_namespace raises (flag = does the code validate? regenerated
    pin_c11support_ns_validated).  For EVERY support_namespace string, on every run that does not raise, every support file is outdir
-   followed by safe components.  While the validation is not in /repo (known finding F-SUPPORT-NS-PATH) the premise is the excluded
-   trigger sn_valid ("" or dot separated identifiers). *)
+   followed by safe components.  The validation is in /repo (C11_support_ns_validated_live; F-SUPPORT-NS-PATH fixed), so the `if`
+   premise is `True`: no premise on the support namespace. *)
 Theorem C11_support_paths_inside_outdir (outdir : path) (sn : str) (sfiles : list str) :
   forall l, support_targets pin_c11support_ns_validated outdir sn sfiles = Some l ->
     (if pin_c11support_ns_validated then True else sn_valid sn = true) ->
@@ -429,17 +429,6 @@ Theorem C11_support_paths_inside_outdir_either (outdir : path) (sn : str) (sfile
 Proof. intros flag. exact (support_targets_inside flag outdir sn sfiles). Qed.
 Print Assumptions C11_support_paths_inside_outdir_either.
 
-(* the unvalidated code puts the support files of support_namespace "/esc" at /esc/<file>, outside the output directory; the
-   validating code refuses; a dotted identifier namespace gives outdir/n/s/<file>.  [History when the fix lands.] *)
-Theorem C11_support_paths_inside_outdir_refuted :
-  exists sn f q, support_targets false w_out sn [f] = Some [q] /\ (forall rel, q <> w_out ++ rel) /\
-                 support_targets true w_out sn [f] = None /\
-                 support_targets true w_out [110; 46; 115] [f] = Some [w_out ++ [[110]; [115]; f]].
-Proof.
-  exists w_sn_abs, [102], [[47]; [101; 115; 99]; [102]]. destruct support_ns_witness as (A & B & C).
-  split; [exact A|]. split; [intros rel X; discriminate X|]. split; assumption.
-Qed.
-Print Assumptions C11_support_paths_inside_outdir_refuted.
 
 (* (17') ... and for EVERY stem string on every run that does not raise, given the stem validation in the code *)
 Theorem C11_real_written_paths_inside_outdir_every_stem : forall (l : lang) (es : bool) (ext stem : str) (outdir : path) perm types r g chk,
